@@ -212,7 +212,7 @@ func chooseConfigs(r *vh.Rand, prog program) []config {
 	return cfgs
 }
 
-var fixedInRepo = map[string]bool{"N02": true, "K02": true, "K03": true, "K09": true, "K30": true, "K06": true, "K08": true, "K10": true, "K11": true, "K12": true, "K13": true, "K37": true, "K38": true,
+var fixedInRepo = map[string]bool{"K04": true, "K07": true, "N02": true, "K02": true, "K03": true, "K09": true, "K30": true, "K06": true, "K08": true, "K10": true, "K11": true, "K12": true, "K13": true, "K37": true, "K38": true,
 	"N03": true, "N04": true, "N05": true, "N07": true, "N08": true, "N09": true, "N10": true, "N11": true}
 
 func runGeneration(ev *evaluator, res *vh.Result, seed uint64, n int, tier string, known bool, nw int, dump string) {
